@@ -149,7 +149,9 @@ impl<M: MovingAverageConstructor> IndicatorInstance for RelativeStrengthIndexIns
 		// test the divisor itself: with a moving average that can overshoot (or with rounding residue of
 		// opposite signs) `pos + neg` can vanish although `pos` and `neg` do not
 		let sum = pos + neg;
-		let value = if sum != 0. { pos / sum } else { 0.5 };
+		// `pos` and `neg` are averages of non-negative values, but windowed averages keep rounding residue of either
+		// sign once the source stops moving (and averages that can overshoot go negative): stay in the documented range
+		let value = if sum != 0. { (pos / sum).clamp(0., 1.) } else { 0.5 };
 
 		let oversold = self.cross_lower.next(&(value, self.cfg.zone)).analog();
 		let overbought = self.cross_upper.next(&(value, 1. - self.cfg.zone)).analog();
